@@ -177,23 +177,33 @@ def isSliceEnd : List Tok → Bool
   | [] => true
   | _ => false
 
+/-- the optional lower bound of a slice (or the whole item when no `:` follows) -/
+def sliceLower (k : Knot) (toks : List Tok) : Option (Option PyExpr × List Tok) :=
+  match toks with
+  | .op [':'] :: _ => some (none, toks)
+  | _ => do let (e, r) ← k.expr toks; some (some e, r)
+
+def sliceUpper (k : Knot) (r1 : List Tok) : Option (Option PyExpr × List Tok) :=
+  match r1 with
+  | .op [':'] :: _ => some (none, r1)
+  | _ => if isSliceEnd r1 then some (none, r1) else do let (e, r) ← k.expr r1; some (some e, r)
+
+def sliceStep (k : Knot) (r3 : List Tok) : Option (Option PyExpr × List Tok) :=
+  if isSliceEnd r3 then some (none, r3) else do let (e, r) ← k.expr r3; some (some e, r)
+
 def sliceF (k : Knot) (toks : List Tok) : Option (PyExpr × List Tok) :=
   match toks with
   | .op ['*'] :: r => do
       let (e, r') ← k.bin 0 r
       some (.starred e, r')
   | _ => do
-    let (lower, r) ← (match toks with
-      | .op [':'] :: _ => some (none, toks)
-      | _ => do let (e, r) ← k.expr toks; some (some e, r))
+    let (lower, r) ← sliceLower k toks
     match r with
     | .op [':'] :: r1 => do
-        let (upper, r2) ← (match r1 with
-          | .op [':'] :: _ => some (none, r1)
-          | _ => if isSliceEnd r1 then some (none, r1) else do let (e, r) ← k.expr r1; some (some e, r))
+        let (upper, r2) ← sliceUpper k r1
         match r2 with
         | .op [':'] :: r3 => do
-            let (step, r4) ← (if isSliceEnd r3 then some (none, r3) else do let (e, r) ← k.expr r3; some (some e, r))
+            let (step, r4) ← sliceStep k r3
             some (.slice lower upper step, r4)
         | _ => some (.slice lower upper none, r2)
     | _ =>
@@ -541,7 +551,7 @@ def topF (k : Knot) (toks : List Tok) : Option PyExpr := do
       | _ => none
   | _ => none
 
-def parseFuel (toks : List Tok) : Nat := 4 * toks.length + 16
+def parseFuel (toks : List Tok) : Nat := 24 * toks.length + 32
 
 /-- parse a complete token list as a Python expression (`eval` mode) -/
 def pyParse (toks : List Tok) : Option PyExpr := topF (knot (parseFuel toks)) toks
